@@ -234,7 +234,7 @@ class Gen:
                 return ["par", r.randrange(me["nparams"])]
             if x < 0.5 and nloc:
                 return ["loc", r.randrange(nloc)]
-            if x < 0.5 + self.p_none:
+            if 0.5 <= x < 0.5 + self.p_none:
                 return ["const", None]
             return ["const", self.val()]
         x = r.random()
